@@ -33,25 +33,30 @@ func RenameArgumentsAction(newNames []string) RewriteAction {
 		// composed builders, ...): work on a copy.
 		newOpt := option.DeepCopy()
 
+		// the renaming is simultaneous: a new name can be the current name of another argument (`as: [to, from]`)
+		renames := make(map[string]string, len(newOpt.Args))
 		for i, arg := range newOpt.Args {
-			previousName := arg.Name
+			renames[arg.Name] = newNames[i]
 			newOpt.Args[i].Name = newNames[i]
+		}
 
-			for j, assignment := range newOpt.Assignments {
-				renameArgumentInValue(&newOpt.Assignments[j].Value, previousName, newNames[i])
+		for j, assignment := range newOpt.Assignments {
+			renameArgumentsInValue(&newOpt.Assignments[j].Value, renames)
 
-				// the argument can be used as an index in the assignment's path (`labels[key] = value`)
-				for k, pathItem := range assignment.Path {
-					if pathItem.Index != nil && pathItem.Index.Argument != nil && pathItem.Index.Argument.Name == previousName {
-						newOpt.Assignments[j].Path[k].Index.Argument.Name = newNames[i]
-					}
+			// the argument can be used as an index in the assignment's path (`labels[key] = value`)
+			for k, pathItem := range assignment.Path {
+				if pathItem.Index == nil || pathItem.Index.Argument == nil {
+					continue
 				}
+				if newName, renamed := renames[pathItem.Index.Argument.Name]; renamed {
+					newOpt.Assignments[j].Path[k].Index.Argument.Name = newName
+				}
+			}
 
-				// constraints are checked on the argument: they refer to it by name too
-				for k, constraint := range assignment.Constraints {
-					if constraint.Argument.Name == previousName {
-						newOpt.Assignments[j].Constraints[k].Argument.Name = newNames[i]
-					}
+			// constraints are checked on the argument: they refer to it by name too
+			for k, constraint := range assignment.Constraints {
+				if newName, renamed := renames[constraint.Argument.Name]; renamed {
+					newOpt.Assignments[j].Constraints[k].Argument.Name = newName
 				}
 			}
 		}
@@ -62,16 +67,18 @@ func RenameArgumentsAction(newNames []string) RewriteAction {
 	}
 }
 
-// renameArgumentInValue renames an argument wherever an assignment value refers to it:
-// directly, or from within the fields of an envelope.
-func renameArgumentInValue(value *ast.AssignmentValue, previousName string, newName string) {
-	if value.Argument != nil && value.Argument.Name == previousName {
-		value.Argument.Name = newName
+// renameArgumentsInValue renames the arguments wherever an assignment value refers to them:
+// directly, or from within the fields of an envelope. Each use is renamed once.
+func renameArgumentsInValue(value *ast.AssignmentValue, renames map[string]string) {
+	if value.Argument != nil {
+		if newName, renamed := renames[value.Argument.Name]; renamed {
+			value.Argument.Name = newName
+		}
 	}
 
 	if value.Envelope != nil {
 		for i := range value.Envelope.Values {
-			renameArgumentInValue(&value.Envelope.Values[i].Value, previousName, newName)
+			renameArgumentsInValue(&value.Envelope.Values[i].Value, renames)
 		}
 	}
 }
